@@ -1,6 +1,6 @@
 -------------------------- MODULE MediaCacheRespTrace --------------------------
 (* Trace judge for the response side of C12.  A trace is one real response:
-     [ev: statements made on the Response inside the responder, sent: [kind, v], eq]
+     [rtype, ev: statements made on the Response inside the responder, sent: [kind, v], eq]
    ev[i] = [op: "new"|"mutsame"|"same"|"none"|"render"|"setdata"|"cleardata"|"settext"|"cleartext", kind, v];
    for "render", kind/v say what render_body() returned ("text" | "data" | "none" | "media" + the
    version number the harness wrote into the document and read back with the trusted decoder).
@@ -14,10 +14,10 @@ EXTENDS MediaCacheResp, Json, IOUtils
 
 Traces == JsonDeserialize(IOEnv.TRACE_FILE)
 VARIABLES tid, l, verdict
-tvars == <<tid, l, verdict, media, nobj, nver, rendered, data, text, last>>
+tvars == <<tid, l, verdict, rtype, media, nobj, nver, rendered, data, text, last>>
 T == Traces[tid]
 
-TInit == /\ tid \in 1..Len(Traces) /\ l = 1 /\ verdict = "ok" /\ Init
+TInit == /\ tid \in 1..Len(Traces) /\ l = 1 /\ verdict = "ok" /\ Init /\ rtype = Traces[tid].rtype
 
 Valid(e) == /\ e.op \in {"new", "mutsame", "same", "none", "render", "setdata", "cleardata", "settext", "cleartext"}
             /\ e.op \in {"mutsame", "same"} => media.o # 0
@@ -51,7 +51,7 @@ Final == IF verdict # "ok" THEN verdict
 Done ==
     /\ l >= 1 /\ (l > Len(T.ev) \/ verdict # "ok")
     /\ PrintT(<<"VERDICT", tid, Final, l - 1>>)
-    /\ l' = -1 /\ UNCHANGED <<tid, verdict, media, nobj, nver, rendered, data, text, last>>
+    /\ l' = -1 /\ UNCHANGED <<tid, verdict, rtype, media, nobj, nver, rendered, data, text, last>>
 
 TNext == Step \/ Done
 TSpec == TInit /\ [][TNext]_tvars
